@@ -20,7 +20,7 @@ Section Proofs.
   Record Inv (st : state) : Prop := {
     inv_ext : forall r i, phases st r = Extracted i -> inst_of (r_app (reqs r)) = Some i /\ r_badenc (reqs r) = false;
     inv_wait : forall r i id, phases st r = Waiting i id -> inst_of (r_app (reqs r)) = Some i /\ r_badenc (reqs r) = false;
-    inv_comp : forall r i v, phases st r = Computed i v -> expected r = Ok i v;
+    inv_comp : forall r i v, phases st r = Computed i v -> expected r = (if r_badaccept (reqs r) then Err EEncoding else Ok i v);
     inv_done : forall r a, phases st r = Done a -> a = expected r;
     inv_pend : forall i id r, In (id, r) (pending (execs st i)) -> id < next (execs st i) /\ phases st r = Waiting i id;
     inv_task : forall i id e, In (id, e) (tasks (execs st i) ++ inwork (execs st i)) ->
@@ -205,9 +205,9 @@ Section Proofs.
     assert (Hres : In (id0, o0) (results (execs st i))) by exact (nth_error_In _ _ T).
     destruct (inv_res st I i id0 o0 Hres) as [r' [L' Eo]]. rewrite L in L'. injection L' as <-.
     destruct (inv_pend st I i id0 r (lookup_In _ _ _ L)) as [Lt W]. destruct (inv_wait st I r i id0 W) as [Hi Hb].
-    assert (Hexp : match o0 with Success v => expected r = Ok i v | Failure k => expected r = Err k end).
+    assert (Hexp : match o0 with Success v => expected r = (if r_badaccept (reqs r) then Err EEncoding else Ok i v) | Failure k => expected r = Err k end).
     { rewrite Eo. unfold C16.compute, C16.expected, C16.entry_of. cbn [fst snd]. rewrite Hi, Hb.
-      destruct (r_missing (reqs r)); reflexivity. }
+      destruct (r_missing (reqs r)); [reflexivity|]. destruct (r_badaccept (reqs r)); reflexivity. }
     pose proof (nth_error_perm n _ _ T) as Pm. apply (Permutation_map fst) in Pm. cbn [map fst] in Pm. fold rest in Pm.
     assert (N : NoDup (map fst (tasks (execs st i)) ++ map fst (inwork (execs st i)) ++ id0 :: map fst rest)).
     { eapply Permutation_NoDup; [|exact (inv_nodup st I i)]. unfold tokens. do 2 apply Permutation_app_head. exact Pm. }
